@@ -21,8 +21,67 @@ def hdrOfKind (kind size : Nat) : Hdr (List Nat) :=
     attrsOk := !(kind = 6 || kind = 7 || kind = 8), expOk := !(kind = 12 || kind = 13),
     idSet := kind != 15, idMatches := !(kind = 1 || kind = 18), sigOk := !(kind = 2 || kind = 10), ownerIsSigner := kind != 3 }
 
+def validateShowAuth : Option AuthErr → String
+  | none => "ok" | some .sessionKey => "sessionKey" | some .sessionToken => "sessionToken"
+  | some .sessionOwner => "sessionOwner" | some .signature => "signature" | some .owner => "owner"
+
+/-- the session tokens of the engine (`valTokens`): users 1 Alice, 2 Bob, 3 the gateway key -/
+def validateTokTable : Nat → Tok
+  | 1 => { issuer := 1, subject := 3, sigValid := true }
+  | 2 => { issuer := 2, subject := 3, sigValid := true }
+  | 3 => { issuer := 1, subject := 3, sigValid := true }
+  | 4 => { issuer := 2, subject := 3, sigValid := true }
+  | 5 => { issuer := 1, subject := 3, sigValid := false }
+  | 6 => { issuer := 1, subject := 3, sigValid := false }
+  | _ => { issuer := 1, subject := 2, sigValid := true }
+
+/-- object code `sigBad*1000 + token*100 + owner*10 + signer` -/
+def validateAuthObj (code : Nat) : Option AObj :=
+  let sigBad := code / 1000
+  let tok := code / 100 % 10
+  let owner := code / 10 % 10
+  let signer := code % 10
+  if sigBad > 1 || tok > 7 || owner < 1 || owner > 3 || signer < 1 || signer > 3 then none
+  else some { owner := owner, signer := signer, sigOk := sigBad == 0, tok := if tok = 0 then none else some tok }
+
+/-- content verdict of the engine's object table (`valContentOK`): `none` = not in the table -/
+def validateContentOk (typ kind : Nat) : Option Bool :=
+  match typ with
+  | 0 => if kind = 0 then some true else none
+  | 1 => if kind ≤ 10 then some (kind = 0 || kind = 7 || kind = 8 || kind = 9) else none
+  | 2 => if kind = 0 || kind = 10 then some (kind = 0) else none
+  | 3 => if kind ≤ 4 then some (kind = 0) else none
+  | _ => none
+
+def validateShowEErr : EErr → String
+  | .policy => "policy" | .format => "format" | .content => "content" | .fail => "fail"
+
 def validateStep (o : OpLine) : String :=
   match o.name with
+  | "authseq" =>
+    match o.nat? "cap", o.nats? "objs" with
+    | some cap, some codes =>
+      if cap < 1 || cap > 64 then "=> bad-op" else
+      let objs := codes.map validateAuthObj
+      if objs.any Option.isNone then "=> bad-op" else
+      let vs := authSeq validateTokTable cap [] (objs.filterMap id)
+      "=> v=" ++ ",".intercalate (vs.map validateShowAuth)
+    | _, _ => "=> bad-op"
+  | "entry" =>
+    match o.nat? "via", o.nat? "typ", o.nat? "kind", o.nat? "hdr", o.nat? "sealed" with
+    | some via, some typ, some kind, some hdr, some sealed =>
+      match validateContentOk typ kind with
+      | none => "=> bad-op"
+      | some contentOk =>
+        if via > 4 || hdr > 1 || sealed > 1 || ((via = 4 || typ = 3) && sealed = 0) || (sealed = 0 && hdr ≠ 0) then "=> bad-op" else
+        let route : Route := match via with | 0 => .put | 1 => .putLocal | 2 => .relay | 3 => .relayLocal | _ => .replicate
+        let t : OType := match typ with | 0 => .regular | 1 => .tombstone | 2 => .lock | _ => .link
+        -- a tombstone / lock that arrives with its payload inside (Replicate) is already refused by the header check
+        let hdrOk := hdr = 0 && !(via = 4 && kind = 10)
+        let r := cluster route (sealed = 0) { typ := t, hdrOk := hdrOk, contentOk := contentOk }
+        let v := match r.1 with | .ok _ => "ok" | .error e => validateShowEErr e
+        s!"=> {v} stored={showNats r.2}"
+    | _, _, _, _, _ => "=> bad-op"
   | "stream" =>
     match o.nat? "kind", o.nat? "size", o.nats? "chunks", o.nat? "unprep", o.nat? "fail", o.nat? "quota", o.nat? "max" with
     | some kind, some size, some chunks, some unprep, some fail, some quota, some mx =>
